@@ -121,7 +121,14 @@ func (dr *DatabaseRecovery) LoadDatabaseWithFallback(primaryPath, personalPath s
 func (dr *DatabaseRecovery) loadWithRetry(primaryPath, personalPath string) (*database.Database, error) {
 	var lastErr error
 
-	for attempt := 1; attempt <= dr.retryConfig.MaxAttempts; attempt++ {
+	// A non-positive MaxAttempts must not skip loading altogether: that would
+	// return (nil, nil) and replace a perfectly good database by the fallback.
+	maxAttempts := dr.retryConfig.MaxAttempts
+	if maxAttempts < 1 {
+		maxAttempts = 1
+	}
+
+	for attempt := 1; attempt <= maxAttempts; attempt++ {
 		verifAttempt(attempt)
 		db, err := database.LoadDatabaseWithPersonal(primaryPath, personalPath)
 		if err == nil {
@@ -136,7 +143,7 @@ func (dr *DatabaseRecovery) loadWithRetry(primaryPath, personalPath string) (*da
 		}
 
 		// Don't sleep on the last attempt
-		if attempt < dr.retryConfig.MaxAttempts {
+		if attempt < maxAttempts {
 			delay := dr.calculateDelay(attempt)
 			verifDelay(attempt, delay)
 			time.Sleep(delay)
